@@ -744,18 +744,48 @@ def run(ctx):
     r4.check(len(dosputs) >= 1 and all(counted_put(f, c) for f, c in dosputs), 'qmtpd:DOS-mode-body-bytes-are-counted', 'qmail-qmtpd.c:main',
              'DOS-mode body puts: %d, not all preceded by the size countdown' % len(dosputs))
     # recipients with a failure letter are not passed to qmail_to
+    def names_failure(v):
+        # the recipient's verdict letter: failure.s[failure.len - 1] itself, or a pointer set to its address
+        if 'failure' in v.src():
+            return True
+        for y in v.walk():
+            if y.var and any('failure' in d.args[-1].src() for d in defs_of(m, y.var)) and all('failure' in d.args[-1].src() for d in defs_of(m, y.var)):
+                return True
+        return False
     for c in m.calls('qmail_to'):
-        ok = any(branch_zero_test(cc, t, lambda v: 'failure' in v.src()) == 'zero' for cc, t in m.guards(c) or [])
+        ok = any(branch_zero_test(cc, t, names_failure) == 'zero' for cc, t in m.guards(c) or [])
         r4.check(ok, 'qmtpd:qmail_to-needs-no-failure-letter', c.where, 'qmail_to() not guarded by the recipient\'s failure letter being 0')
     pq = db.program('qmail-qmqpd')
     mq = pq.fn('main', 'qmail-qmqpd.c')
-    isgb = lambda v: v.strip().k == 'call' and v.strip().callee == 'getbuf'
+    def isgb_at(site):
+        # getbuf()'s verdict: the call itself, or a variable whose closest preceding assignment is "= getbuf()"
+        def pred(v):
+            v = v.strip()
+            if v.k == 'call' and v.callee == 'getbuf':
+                return True
+            name = v.var or (v.path() if v.k in ('ref', 'cast') else None)
+            if not name:
+                return False
+            ds = [d for d in mq.all_x() if d.k == 'asg' and d.op == '=' and (d.args[0].var == name or d.args[0].path() == name) and mq.dominates(d, site)]
+            if not ds:
+                return False
+            last = ds[0]
+            for d in ds[1:]:
+                if mq.dominates(last, d):
+                    last = d
+            r_ = last.args[1].strip()
+            return r_.k == 'call' and r_.callee == 'getbuf'
+        return pred
     for c in mq.calls('qmail_to') + [c for c in mq.calls('qmail_from') if c.args[1].string is None]:
-        ok = any(branch_zero_test(cc, t, isgb) == 'nonzero' for cc, t in mq.guards(c) or [])
+        ok = any(branch_zero_test(cc, t, isgb_at(c)) == 'nonzero' for cc, t in mq.guards(c) or [])
+        a1 = c.args[1].strip()
+        if not ok and a1.k == 'cond' and a1.args[2] is not None and a1.args[2].string is not None:
+            # qmail_from(&qq, ok ? buf : ""): the buffer is passed only where the verdict is non-zero
+            ok = branch_zero_test(a1.args[0], True, isgb_at(c)) == 'nonzero'
         r4.check(ok, 'qmqpd:%s-needs-getbuf-ok' % c.callee, c.where, '%s() with an address getbuf() rejected' % c.callee)
     nf = 0
     for f in mq.calls('qmail_fail'):
-        if any(branch_zero_test(cc, t, isgb) == 'zero' for cc, t in mq.guards(f) or []):
+        if any(branch_zero_test(cc, t, isgb_at(f)) == 'zero' for cc, t in mq.guards(f) or []):
             nf += 1
     r4.check(nf >= 2, 'qmqpd:bad-address->qmail_fail(2 sites)', 'qmail-qmqpd.c:main', 'qmail_fail under !getbuf(): %d site(s)' % nf)
     gb = pq.fn('getbuf', 'qmail-qmqpd.c')
